@@ -1,5 +1,9 @@
 CONSTANTS
   Variant = "mut_nohost"
+  CookieSet = {"valid", "expired", "wronghash", "malformed", "absent"}
+  PinSet = {"right", "wrong"}
+  HostCs = {"D", "N", "E"}
+  ConfigOn = FALSE
   ExportCnts = {}
 INIT Init
 NEXT Next
